@@ -105,6 +105,86 @@ Proof.
         replace (s + (cap + bars_dur c sg)) with (s + cap + bars_dur c sg) by lia. exact R2.
 Qed.
 
+(* the signatures that survive normalise all sit on bar lines of the grid in force *)
+Lemma bars_on g c : forall sg s t0 B prev,
+  forallb (sig_valid g c) sg = true -> 0 < B -> (s - t0) mod B = 0 ->
+  (prev = (NONE, NONE) \/ B = bar_cap c (fst prev) (snd prev)) ->
+  ts_on c t0 B (changes prev (bar_tsl c s sg)) = true.
+Proof.
+  induction sg as [|nd sg IH]; intros s t0 B prev Hv HB Hmod Hprev; [reflexivity|].
+  cbn [forallb] in Hv. apply andb_prop in Hv. destruct Hv as [Hv1 Hv].
+  pose proof Hv1 as Hv1'. unfold sig_valid in Hv1'.
+  apply andb_prop in Hv1'. destruct Hv1' as [V4 V5]. apply andb_prop in V4. destruct V4 as [V3 V4].
+  apply andb_prop in V3. destruct V3 as [V2 V3]. apply andb_prop in V2. destruct V2 as [V1 V2].
+  pose proof V4 as Hcap. apply Z.ltb_lt in Hcap. pose proof V1 as Hden. apply Z.ltb_lt in Hden.
+  cbn [bar_tsl changes fst snd]. set (cap := bar_cap c (fst nd) (snd nd)) in *.
+  destruct (ts_eqb (fst nd, snd nd) prev) eqn:E.
+  - apply ts_eqb_eq in E. destruct Hprev as [Hp|Hp].
+    + rewrite Hp in E. injection E as _ E2. unfold NONE in E2. lia.
+    + rewrite <- E in Hp. cbn [fst snd] in Hp. fold cap in Hp. subst B.
+      apply IH; [exact Hv|exact HB| |right; rewrite <- E; reflexivity].
+      replace (s + cap - t0) with (s - t0 + 1 * cap) by lia. now rewrite Z_mod_plus_full.
+  - cbn [ts_on]. rewrite Hmod, Z.eqb_refl. fold cap. rewrite V4. cbn [andb].
+    apply IH; [exact Hv|exact Hcap| |right; reflexivity].
+    replace (s + cap - s) with cap by lia. apply Z_mod_same_full.
+Qed.
+
+(* the ends of the bars of signatures sg laid out from tick s *)
+Fixpoint bar_ends (c : cfg) (s : Z) (sg : list (Z * Z)) : list Z :=
+  match sg with
+  | [] => []
+  | nd :: r => (s + bar_cap c (fst nd) (snd nd)) :: bar_ends c (s + bar_cap c (fst nd) (snd nd)) r
+  end.
+
+Lemma bar_ends_app c a b : forall s, bar_ends c s (a ++ b) = bar_ends c s a ++ bar_ends c (s + bars_dur c a) b.
+Proof.
+  induction a as [|nd a IH]; intros s; [cbn; now rewrite Z.add_0_r|]. cbn [app bar_ends bars_dur]. rewrite IH.
+  do 3 f_equal. lia.
+Qed.
+
+Lemma bar_ends_shift c a sg : forall s, map (fun x => x + a) (bar_ends c s sg) = bar_ends c (s + a) sg.
+Proof.
+  induction sg as [|nd sg IH]; intros s; [reflexivity|]. cbn [bar_ends map]. rewrite IH. f_equal; [lia|f_equal; lia].
+Qed.
+
+(* the bar ends expected from a clock whose grid carries the bar start s: those up to s, then every bar's end *)
+Lemma bars_expected g c : forall sg s k prev,
+  forallb (sig_valid g c) sg = true -> 0 < r_total k -> 0 <= r_tbar k -> r_time k <= s ->
+  (r_tbar k + (s - r_time k)) mod r_total k = 0 ->
+  (prev = (NONE, NONE) \/ r_total k = bar_cap c (fst prev) (snd prev)) ->
+  expected c k (changes prev (bar_tsl c s sg)) (s + bars_dur c sg) = adv_caps k s ++ bar_ends c s sg.
+Proof.
+  induction sg as [|nd sg IH]; intros s k prev Hv HB Htb Hks Hmod Hprev.
+  - cbn [bar_tsl changes expected bars_dur bar_ends]. now rewrite Z.add_0_r, app_nil_r.
+  - cbn [forallb] in Hv. apply andb_prop in Hv. destruct Hv as [Hv1 Hv].
+    pose proof Hv1 as Hv1'. unfold sig_valid in Hv1'.
+    apply andb_prop in Hv1'. destruct Hv1' as [V4 V5]. apply andb_prop in V4. destruct V4 as [V3 V4].
+    apply andb_prop in V3. destruct V3 as [V2 V3]. apply andb_prop in V2. destruct V2 as [V1 V2].
+    pose proof V4 as Hcap. apply Z.ltb_lt in Hcap. pose proof V1 as Hden. apply Z.ltb_lt in Hden.
+    cbn [bar_tsl changes bars_dur bar_ends fst snd]. set (cap := bar_cap c (fst nd) (snd nd)) in *.
+    assert (Hone : forall k1, r_time k1 = s -> r_tbar k1 = 0 -> r_total k1 = cap -> adv_caps k1 (s + cap) = [s + cap]).
+    { intros k1 E1 E2 E3. unfold adv_caps, adv_n. rewrite E1, E2, E3.
+      replace (0 + (s + cap - s)) with cap by lia. rewrite Z_div_same_full by lia. change (Z.to_nat 1) with 1%nat. cbn [ends].
+      f_equal. lia. }
+    replace (s + (cap + bars_dur c sg)) with (s + cap + bars_dur c sg) by lia.
+    destruct (ts_eqb (fst nd, snd nd) prev) eqn:E.
+    + apply ts_eqb_eq in E. destruct Hprev as [Hp|Hp].
+      * rewrite Hp in E. injection E as _ E2. unfold NONE in E2. lia.
+      * rewrite <- E in Hp. cbn [fst snd] in Hp. fold cap in Hp.
+        rewrite (IH (s + cap) k prev Hv HB Htb); [|lia| |right; rewrite <- E; exact Hp].
+        -- destruct (adv_comp k (mkrc s 0 cap false) s (s + cap) HB Htb Hks ltac:(lia) eq_refl) as [C1 _].
+           ++ cbn [r_tbar]. unfold adv_tbar. now rewrite Hmod.
+           ++ cbn [r_total]. now rewrite Hp.
+           ++ rewrite <- C1, (Hone (mkrc s 0 cap false)) by reflexivity. now rewrite <- app_assoc.
+        -- replace (r_tbar k + (s + cap - r_time k)) with (r_tbar k + (s - r_time k) + 1 * r_total k) by lia.
+           now rewrite Z_mod_plus_full.
+    + cbn [expected]. fold cap. f_equal.
+      rewrite (IH (s + cap) (mkrc s 0 cap false) (fst nd, snd nd) Hv); cbn [r_time r_tbar r_total]; try lia.
+      * rewrite (Hone (mkrc s 0 cap false)) by reflexivity. reflexivity.
+      * replace (0 + (s + cap - s)) with cap by lia. apply Z_mod_same_full.
+      * right. reflexivity.
+Qed.
+
 (* ---- a track of a group: well formed, a time signature exactly at every bar start, as long as the bars, and no
    message at the very end of the group (every track ends with a positive wait) *)
 Fixpoint tsl_eqb (a b : list (Z * Z * Z)) : bool :=
@@ -165,6 +245,7 @@ Proof.
   - rewrite IH; [lia|discriminate|exact HT|]. intros x Hx. apply H. now right.
 Qed.
 
+Local Opaque fe_events.
 Section GroupChunk.
   Variables (g : Z) (c : cfg) (sg : list (Z * Z)) (tracks : list (list msg)).
   Hypothesis Hc : valid_cfg g c = true.
@@ -332,6 +413,41 @@ Section GroupChunk.
     split; [exact E1|]. split; [lia|]. split; [exact R3|]. split; [exact R4|]. split; [exact R5|].
     apply Z.divide_add_r; [|exact K5]. apply bars_dur_div; [exact group_g|exact Hsv].
   Qed.
+
+  (* 3. ... and the bar ends passed on the way are exactly the ends of the group's bars *)
+  Lemma group_caps0 k0 :
+    r_time k0 = 0 -> r_tbar k0 = 0 -> r_has k0 = false -> 0 < r_total k0 ->
+    snd (ref_run c k0 evs) = bar_ends c 0 sg.
+  Proof.
+    intros K1 K2 K3 K4. destruct (group_run0 k0 K1 K2 K3 K4) as (_ & R2 & R3 & _ & R5).
+    pose proof (run_expected c evs k0 0 (r_total k0) T K4 eq_refl) as Hr.
+    rewrite group_ts in Hr.
+    assert (Hon : ts_on c 0 (r_total k0) (changes (NONE, NONE) (bar_tsl c 0 sg)) = true).
+    { apply (bars_on g c sg 0 0 (r_total k0) (NONE, NONE) Hsv K4); [reflexivity|now left]. }
+    specialize (Hr ltac:(now rewrite K2, K1) group_sorted).
+    assert (Hb : forall e, In e evs -> r_time k0 <= ev_time e <= T).
+    { intros e He. rewrite K1. split; [now apply group_local|now apply group_ev_le]. }
+    specialize (Hr Hb ltac:(rewrite K1; lia) Hon).
+    pose proof (bars_expected g c sg 0 k0 (NONE, NONE) Hsv K4) as He. rewrite Z.add_0_l in He. fold T in He.
+    rewrite He in Hr; [|lia|lia| |now left].
+    - assert (E1 : adv_caps (fst (ref_run c k0 evs)) T = []).
+      { unfold adv_caps, adv_n. rewrite R2, R3. replace (0 + (T - T)) with 0 by lia. rewrite Z.div_0_l by lia. reflexivity. }
+      assert (E2 : adv_caps k0 0 = []).
+      { unfold adv_caps, adv_n. rewrite K1, K2. cbn [Z.add Z.sub Z.opp]. rewrite Z.div_0_l by lia. reflexivity. }
+      rewrite E1, E2, app_nil_r in Hr. exact Hr.
+    - rewrite K1, K2. reflexivity.
+  Qed.
+
+  Lemma group_caps k :
+    r_tbar k = 0 -> r_has k = false -> 0 < r_total k ->
+    snd (ref_run c k (map (shift_ev (r_time k)) evs)) = bar_ends c (r_time k) sg.
+  Proof.
+    intros K2 K3 K4. set (a := r_time k) in *. set (k0 := mkrc 0 0 (r_total k) false).
+    assert (Ek : k = kshift a k0).
+    { destruct k as [t tb tot h]. cbn [r_time r_tbar r_total r_has] in *. subst tb h. unfold kshift, k0, a.
+      cbn [r_time r_tbar r_total r_has]. f_equal. }
+    rewrite Ek at 1. rewrite ref_run_shift_snd, (group_caps0 k0 eq_refl eq_refl eq_refl K4), bar_ends_shift. reflexivity.
+  Qed.
 End GroupChunk.
 
 (* ================================================================ Target 2: groups of bars are chunks *)
@@ -469,26 +585,80 @@ Proof.
   apply (group_notes g c sg tracks Hgr). now rewrite (group_ntracks g c sg tracks Hgr).
 Qed.
 
+(* the reference clock over the glued events of the groups: it ends on the bar start at the end of the last group,
+   no note written there, having passed exactly the ends of all bars *)
+Definition all_sigs (groups : list group) : list (Z * Z) := concat (map fst groups).
+
+Lemma groups_run g c (Hc : valid_cfg g c = true) : forall groups k,
+  r_tbar k = 0 -> r_has k = false -> 0 < r_total k -> (g | r_time k) -> groups_ok g c groups = true ->
+  let r := ref_run c k (glue (r_time k) (group_events groups)) in
+  r_time (fst r) = r_time k + bars_dur c (all_sigs groups) /\ r_tbar (fst r) = 0 /\ r_has (fst r) = false /\
+  snd r = bar_ends c (r_time k) (all_sigs groups).
+Proof.
+  induction groups as [|[sg tracks] groups IH]; intros k K2 K3 K4 K5 Hok.
+  - cbn. repeat split; try assumption. lia.
+  - cbn [groups_ok forallb fst snd] in Hok. apply andb_prop in Hok. destruct Hok as [Hgr Hok].
+    cbn [group_events map glue snd all_sigs concat fst]. fold (group_events groups). fold (all_sigs groups).
+    rewrite ref_run_app. cbn [fst snd].
+    destruct (group_run g c sg tracks Hc Hgr k K2 K3 K4 K5) as (_ & R2 & R3 & R4 & R5 & R6).
+    rewrite (group_len g c sg tracks Hc Hgr), <- R2.
+    destruct (IH _ R3 R4 R5 R6 Hok) as (I1 & I2 & I3 & I4). cbv zeta in I1, I2, I3, I4.
+    rewrite I1, I2, I3, I4, (group_caps g c sg tracks Hc Hgr k K2 K3 K4), R2.
+    rewrite bar_ends_app. split; [|split; [reflexivity|split; [reflexivity|reflexivity]]].
+    clear. induction sg as [|nd sg IHs]; cbn [app bars_dur]; lia.
+Qed.
+
+Lemma exp_track_caps c evs i : filter is_cap (exp_track c evs i) = caps_msgs (run_caps c (rclk0 c) evs).
+Proof.
+  unfold exp_track. rewrite filter_app.
+  assert (H1 : filter is_cap (flat_map (ev_notes c (Z.of_nat i)) evs) = []).
+  { induction evs as [|e evs IH]; [reflexivity|]. cbn [flat_map]. rewrite filter_app, IH, app_nil_r.
+    unfold ev_notes. destruct (m_type (ev_msg e)); try reflexivity. destruct (_ =? _); reflexivity. }
+  assert (H2 : forall l, filter is_cap (caps_msgs l) = caps_msgs l).
+  { induction l as [|x l IH]; [reflexivity|]. cbn [caps_msgs map filter] in *. unfold caps_msgs in IH. now rewrite IH. }
+  now rewrite H1, H2.
+Qed.
+
+Lemma filter_cap_rel l : filter is_cap (filter rel l) = filter is_cap l.
+Proof.
+  rewrite filter_filter. apply filter_ext_in'. intros x _. unfold rel. destruct (is_cap x); [now rewrite orb_true_r|apply andb_false_r].
+Qed.
+
 (* Group-level round trip: the threaded calls succeed, their concatenated tokens are those of one core run on the
-   glued events, they detokenise to one sequence per track, and the note messages of sequence i are exactly the notes
-   of track i of every group (velocity replaced by its bin value), each group shifted to the sum of the durations of
-   the groups before it. *)
+   glued events, the final state stands on the bar start at the end of the last group, the tokens detokenise to one
+   sequence per track, the note messages of sequence i are exactly the notes of track i of every group (velocity
+   replaced by its bin value), each group shifted to the sum of the durations of the groups before it, and its
+   INTERNAL caps sit exactly on the ends of all bars. *)
 Theorem C03_groups_roundtrip g c groups :
   valid_cfg g c = true -> groups_ok g c groups = true ->
   exists toks st seqs,
     tokenise_many c (tstate0 c) (group_calls groups) = Ok (toks, st) /\
     core c (tstate0 c) (glue 0 (group_events groups)) = Ok (toks, st) /\
+    t_time st = bars_dur c (all_sigs groups) /\ t_tbar st = 0 /\
     detokenise c toks = Ok seqs /\ length seqs = Z.to_nat (c_ntracks c) /\
     forall i, (i < length seqs)%nat ->
       Permutation (filter rel (nth i seqs [])) (exp_track c (glue 0 (group_events groups)) i) /\
       Permutation (filter is_note (nth i seqs []))
-                  (flat_map (note_msgs c) (glued_notes i 0 (group_lens c groups) (group_notes_of i groups))).
+                  (flat_map (note_msgs c) (glued_notes i 0 (group_lens c groups) (group_notes_of i groups))) /\
+      Permutation (filter is_cap (nth i seqs [])) (caps_msgs (bar_ends c 0 (all_sigs groups))).
 Proof.
   intros Hc Hok. destruct (C03_bar_chunks_ok g c groups Hc Hok) as (H1 & H2 & H3).
-  destruct (C03_chunked_roundtrip g c (group_events groups) Hc H3) as (toks & st & seqs & R1 & R2 & R3 & R4 & R5).
-  exists toks, st, seqs. split; [rewrite (tokenise_many_chunked c _ _ _ H2 H1); exact R1|].
-  split; [exact R2|]. split; [exact R3|]. split; [exact R4|]. intros i Hi. specialize (R5 i Hi). split; [exact R5|].
-  apply (filter_perm is_note) in R5. rewrite filter_note_rel, exp_track_notes, ev_notes_track in R5.
-  eapply perm_trans; [exact R5|]. apply Permutation_flat_map.
-  rewrite <- (groups_lens g c Hc groups Hok). apply glue_track_notes. apply (groups_notes g c Hc i groups); [lia|exact Hok].
+  pose proof (chunks_valid g c _ _ H3) as Hv. cbn [rclk0 r_time] in Hv.
+  destruct (C01_core_roundtrip g c _ Hc Hv) as (toks & st & seqs & R1 & _ & R3 & R4 & R5 & R6 & R7).
+  destruct (valid_cfg_parts g c Hc) as (_ & _ & _ & _ & _ & HB & _).
+  destruct (groups_run g c Hc groups (rclk0 c) eq_refl eq_refl HB (Z.divide_0_r g) Hok) as (G1 & G2 & G3 & G4).
+  cbv zeta in G1, G2, G3, G4. change (r_time (rclk0 c)) with 0 in G1, G2, G3, G4.
+  assert (Hclose : ref_close (fst (ref_run c (rclk0 c) (glue 0 (group_events groups)))) =
+                   (fst (ref_run c (rclk0 c) (glue 0 (group_events groups))), [])).
+  { unfold ref_close. now rewrite G2, G3. }
+  exists toks, st, seqs.
+  split; [rewrite (tokenise_many_chunked c _ _ _ H2 H1), (C03_chunked_tokens g c _ Hc H3); exact R1|].
+  split; [exact R1|].
+  split; [rewrite R3; unfold run_end; rewrite Hclose; cbn [fst]; rewrite G1; lia|].
+  split; [exact R4|]. split; [exact R5|]. split; [exact R6|]. intros i Hi. specialize (R7 i Hi). split; [exact R7|]. split.
+  - apply (filter_perm is_note) in R7. rewrite filter_note_rel, exp_track_notes, ev_notes_track in R7.
+    eapply perm_trans; [exact R7|]. apply Permutation_flat_map.
+    rewrite <- (groups_lens g c Hc groups Hok). apply glue_track_notes. apply (groups_notes g c Hc i groups); [lia|exact Hok].
+  - apply (filter_perm is_cap) in R7. rewrite filter_cap_rel, exp_track_caps in R7.
+    unfold run_caps in R7. rewrite Hclose, G4 in R7. cbn [snd] in R7. now rewrite app_nil_r in R7.
 Qed.
